@@ -280,10 +280,66 @@ func runC17(c *Ctx) {
 		}
 		return sb.String()
 	}
+	// templates composed from the template grammar: literals (also empty), interpolations, `if` with and without `else`,
+	// `for`, every branch possibly empty, nested, strip markers and blanks inside the markers at random
+	var tmplSrc func(d int) string
+	tmplSrc = func(d int) string {
+		op := func() string { return gen.Pick(r, []string{"%{", "%{ ", "%{~", "%{~ "}) }
+		cl := func() string { return gen.Pick(r, []string{"}", " }", "~}", " ~}"}) }
+		var sb strings.Builder
+		for n := r.Intn(4); n > 0; n-- {
+			switch k := r.Intn(10); {
+			case k < 3:
+				sb.WriteString(gen.Pick(r, []string{"", "x", " ", "text ", "\n", "$${", "%%{", "é", "$", "%"}))
+			case k < 5:
+				sb.WriteString(gen.Pick(r, []string{"${", "${~", "${ "}) + gen.Pick(r, []string{"a", "1", "a.b", "\"s\"", "c ? 1 : 2", "[1, 2][0]"}) + gen.Pick(r, []string{"}", "~}", " }"}))
+			case k < 8 && d > 0:
+				sb.WriteString(op() + "if " + gen.Pick(r, []string{"c", "true", "a == 1", "!c"}) + cl() + tmplSrc(d-1))
+				if r.Chance(1, 2) {
+					sb.WriteString(op() + "else" + cl() + tmplSrc(d-1))
+				}
+				sb.WriteString(op() + "endif" + cl())
+			case d > 0:
+				sb.WriteString(op() + "for " + gen.Pick(r, []string{"x", "k, v"}) + " in " + gen.Pick(r, []string{"xs", "[1, 2]", "{a = 1}", "[]"}) + cl() + tmplSrc(d-1) + op() + "endfor" + cl())
+			}
+		}
+		return sb.String()
+	}
+	wrapTmpl := func(t string) (string, []byte) {
+		switch r.Intn(4) {
+		case 0:
+			return "tmpl", []byte(t)
+		case 1:
+			return "expr", []byte("\"" + t + "\"")
+		case 2:
+			return "cfg", []byte("a = \"" + t + "\"\nb = 1\n")
+		}
+		return "cfg", []byte("a = <<EOT\n" + t + "\nEOT\nb = 1\n")
+	}
+	// every run: the small directive shapes with each branch empty / not empty, bare, in a string and in a heredoc
+	for _, y := range []string{"", "y"} {
+		for _, n := range []string{"", "n"} {
+			for _, sp := range []string{"", " "} {
+				for _, t := range []string{
+					"%{" + sp + "if c" + sp + "}" + y + "%{" + sp + "else" + sp + "}" + n + "%{" + sp + "endif" + sp + "}",
+					"%{" + sp + "if c" + sp + "}" + y + "%{" + sp + "endif" + sp + "}",
+					"%{" + sp + "for x in xs" + sp + "}" + y + "%{" + sp + "endfor" + sp + "}",
+					"%{~" + sp + "if c" + sp + "~}" + y + "%{~" + sp + "else" + sp + "~}" + n + "%{~" + sp + "endif" + sp + "~}",
+				} {
+					for _, w := range [][2]string{{"tmpl", t}, {"expr", "\"" + t + "\""}, {"cfg", "a = \"" + t + "\"\n"}, {"cfg", "a = <<EOT\n" + t + "\nEOT\n"}} {
+						c.Count("mode." + w[0] + ".directive-shapes")
+						c17Line(c, fmt.Sprintf("parse %s %s", w[0], hx([]byte(w[1]))))
+					}
+				}
+			}
+		}
+	}
 	for c.Lines < c.N {
 		var mode string
 		var src []byte
-		switch k := r.Intn(22); {
+		switch k := r.Intn(24); {
+		case k >= 22: // templates composed from the grammar
+			mode, src = wrapTmpl(tmplSrc(1 + r.Intn(3)))
 		case k >= 20: // malformed / partial template sequences, bare or inside a string or heredoc
 			switch r.Intn(4) {
 			case 0:
